@@ -247,7 +247,7 @@ pub fn run(ctx: &Ctx) -> Shard {
         let doc: serde_json::Value = serde_json::from_slice(&std::fs::read(rp).expect("read replay")).expect("parse");
         vec![serde_json::from_value(doc["case"]["history"].clone()).expect("history")]
     } else {
-        let n = ctx.scale(if ctx.thorough() { 3000 } else { 60 });
+        let n = ctx.scale(if ctx.thorough() { 3000 } else { 200 });
         (0..n)
             .map(|i| {
                 let profile = (i % gen::N_PROFILES as u64) as u8;
